@@ -44,7 +44,7 @@ CLAIMS = {
              'evaluate_likelihood call or one index into the transfer arrays); the pool map '
              'preserves order; no operation can drop the batch axis for a one-row batch; the '
              'prior only ever receives a fresh copy.',
-        ref='DESIGN.md section 4 C03, rules L1-L5 S1 F5 F7', note=TRUST +
+        ref='DESIGN.md section 4 C03, rules L1-L5 S1 F5 F7 A5 P4 P1 P2', note=TRUST +
         ' The user likelihood is assumed pure.'),
     'C05': dict(
         technique='effect analysis over the resolved call graph vs. key tables extracted from '
@@ -126,7 +126,7 @@ CLAIMS.update({
              'n_like < n_like_max, at most one batch per iteration, idle iterations are pure; '
              'sample_shell returns exactly n_batch fresh rows; the success predicate is one '
              'conjunction over explored / per-shell minimum / n_eff and is the returned value.',
-        ref='DESIGN.md section 4 C10, rules F6 N1 T5 T8', note=TRUST),
+        ref='DESIGN.md section 4 C10, rules F6 N1 T5 T8 M1 M3 M6', note=TRUST),
     'C11': dict(
         technique='effect (write/draw) summaries closed over the call graph; control-dependence '
                   'analysis of flag tests; rng provenance; nondeterminism lints with fixtures',
